@@ -277,40 +277,32 @@ def selftest_mutants(rest):
     return 0 if not missed else 1
 
 
-_OLD_SENS = {}
-
-
 def _write_sensitivity(results, only, tier, t0):
+    """Entries evaluated in this run replace their predecessors in
+    evidence/sensitivity.json; the others are kept.  Safe for several
+    selftest-mutants processes working on disjoint subsets at once."""
+    import fcntl
     os.makedirs(core.EVIDENCE_DIR, exist_ok=True)
     spath = os.path.join(core.EVIDENCE_DIR, 'sensitivity.json')
-    wall = round(time.time() - t0, 1)
-    if 'd' not in _OLD_SENS:
+    with open(spath + '.lock', 'w') as lock:
+        fcntl.flock(lock, fcntl.LOCK_EX)
         try:
             with open(spath, encoding='utf-8') as fh:
-                _OLD_SENS['d'] = json.load(fh)
+                old = json.load(fh)
         except (OSError, ValueError):
-            _OLD_SENS['d'] = {}
-    old = _OLD_SENS['d']
-    if old:
-        # entries evaluated in this run replace their predecessors; entries of
-        # patches not (yet) evaluated in this run are kept, marked as earlier
-        try:
-            done = {r['mutant'] for r in results}
-            known = {n for n, _p, _f in _patch_list()}
-            kept = [r for r in old.get('results', [])
-                    if r['mutant'] not in done and r['mutant'] in known]
-            for r in kept:
-                r.setdefault('from_earlier_run', True)
-            merged = sorted(kept + results, key=lambda r: r['mutant'])
-            wall = round(old.get('wall_s', 0) + wall, 1)
-        except (ValueError, KeyError):
-            merged = results
-    else:
-        merged = results
-    with open(spath + '.tmp', 'w', encoding='utf-8') as fh:
-        json.dump({'results': merged, 'tier': tier, 'wall_s': wall}, fh,
-                  indent=1, sort_keys=True)
-    os.replace(spath + '.tmp', spath)
+            old = {}
+        done = {r['mutant'] for r in results}
+        known = {n for n, _p, _f in _patch_list()}
+        kept = [r for r in old.get('results', [])
+                if r.get('mutant') not in done and r.get('mutant') in known]
+        merged = sorted(kept + results, key=lambda r: r['mutant'])
+        doc = {'results': merged, 'tier': tier,
+               'wall_s': round(sum(r.get('wall_s', 0) for r in merged), 1),
+               'caught': sum(1 for r in merged if r['status'] == 'caught'),
+               'total': len(merged)}
+        with open(spath + '.tmp', 'w', encoding='utf-8') as fh:
+            json.dump(doc, fh, indent=1, sort_keys=True)
+        os.replace(spath + '.tmp', spath)
 
 
 # ---------------------------------------------------------------------------
